@@ -91,7 +91,11 @@ def catalog(ctx):
     # the supporting run relies on pool workers inheriting module constants patched in the parent (fork)
     if probe[0]['workers_see'] != [list(SMALL)] or not probe[0]['other_process']:
         raise RuntimeError('c08: pool workers do not inherit patched module constants: %r' % (probe[0],))
-    ctx.notes.append('fork probe: %r' % (probe[0],))
+    ctx.notes.append('fork probe: %r' % ({k: v for k, v in probe[0].items() if k != 'registered'},))
+    global REGISTERED
+    REGISTERED = [tuple(x) for x in probe[0]['registered']]
+    if len(REGISTERED) < len(json.loads(lines[0])):
+        raise RuntimeError('c08: registered class list shorter than the packable catalog')
     cat = [(t, v, bytes.fromhex(h), so) for t, v, h, so in json.loads(lines[0])]
     if len(cat) < 20:
         raise RuntimeError('c08: message catalog has only %d classes' % len(cat))
@@ -410,6 +414,59 @@ def gen_short_payload(rng, cat):
     return cases
 
 
+REGISTERED = []
+
+
+def undecodable_payloads(default, maxpay):
+    """payloads that are too short / empty / garbage for (nearly) every class layout"""
+    out = [b'']
+    out += [bytes(k) for k in (1, 4, 7, 8, 12, 20, 40, 100) if k <= maxpay]
+    out += [b'\xff' * k for k in (8, 24, 60, 200) if k <= maxpay]
+    out += [bytes((7 * i + 3) & 255 for i in range(k)) for k in (16, 24, 100) if k <= maxpay]
+    if default:
+        out += [default[:k] for k in {len(default) - 1, len(default) // 2, min(len(default), 13)} if 0 <= k <= maxpay]
+        out += [(default + b'\x00' * 5)[:maxpay]] if len(default) + 5 <= maxpay else []
+    seen, uniq = set(), []
+    for p in out:
+        if p not in seen:
+            seen.add(p); uniq.append(p)
+    return uniq
+
+
+def gen_undecodable(rng, cat, R, M, per_file):
+    """for EVERY registered message type (struct based, construct based, classes whose unpack raises other exception
+    types, classes that cannot even pack a default instance): CRC-valid messages whose payload is empty / too short /
+    garbage for the class, between ordinary messages, in ordinary positions and straddling block boundaries.  They are
+    messages of the file: the index must list them (with no time unless the class yields one)."""
+    defaults = {c[0]: c for c in cat}
+    msgs = []
+    for t, ver in REGISTERED:
+        d = defaults.get(t)
+        pays = undecodable_payloads(d[2] if d else None, M - 24)
+        for j, p in enumerate(pays):
+            msgs.append(F.msg(t, [['h', p.hex()]], ver=(ver if j % 5 else (ver + 1) % 256), seq=len(msgs)))
+    rng.shuffle(msgs)
+    cases = []
+    for n in range(0, len(msgs), per_file):
+        chunk = msgs[n:n + per_file]
+        segs, size, k = [], 0, 0
+        # lead-in so that the run of messages straddles the first block boundary; later boundaries come by themselves
+        lead = max(0, R - rng.randrange(0, min(R, 24 * per_file)))
+        if (n // per_file) % 3 == 0:
+            lead = rng.randrange(0, 50)
+        segs.append(['z', lead, 0])
+        for m in chunk:
+            segs.append(m)
+            k += 1
+            if k % 4 == 0:
+                segs.append(cat_msg(rng, cat, maxpay=M - 24))
+            if k % 3 == 0:
+                segs.append(['z', rng.randrange(0, 7), rng.choice([0, 0x2E])])
+        segs.append(['z', rng.randrange(0, 30), 0])
+        cases.append({'kind': 'undecodable', 'recipe': segs})
+    return cases
+
+
 def gen_mix(rng, cat, R, M, count, maxblocks):
     cases = []
     for n in range(count):
@@ -474,6 +531,7 @@ def gen_small_exhaustive(rng, cat, quick):
         cases.append({'kind': 'small:multi', 'recipe': layout(items, fs, ('z', 0) if n % 2 else ('r', 9000 + n))})
     cases += [dict(c, kind='small:' + c['kind']) for c in gen_overlap(rng, cat, R, M, 150 if quick else 1500)]
     cases += [dict(c, kind='small:' + c['kind']) for c in gen_nested(rng, cat, R, M, 60 if quick else 600)]
+    cases += [dict(c, kind='small:' + c['kind']) for c in gen_undecodable(rng, cat, R, M, 60)]
     cases += [dict(c, kind='small:' + c['kind']) for c in gen_tails(rng, cat, R, M)]
     cases += [dict(c, kind='small:' + c['kind']) for c in gen_boundary_max(rng, cat, R, M)]
     cases += [dict(c, kind='small:' + c['kind']) for c in gen_trunc(rng, cat, R, M)]
@@ -594,6 +652,7 @@ def run(ctx):
     real += gen_tiny(rng)
     real += gen_stamps(rng, cat)
     real += gen_short_payload(rng, cat)
+    real += gen_undecodable(rng, cat, R, M, 120)
     real += gen_trunc(rng, cat, R, M)
     real += gen_tails(rng, cat, R, M) if not quick else gen_tails(rng, cat, R, M)[::2]
     real += gen_boundary(rng, cat, R, M, deltas if not quick else deltas[::2] + [-24, -23, -1, 1, 23, 25], [2, 3, 4, 5, 6, 2, 3], quick)
@@ -656,7 +715,7 @@ def run(ctx):
         'and no call may raise. MAIN run, real constants READ=%d MAX=%d: files of 1-6 blocks with messages / sync words whose start or end is at '
         'k*READ+d and k*READ+MAX+d for d in [-25,25] (%s), tails 0..MAX+25 and READ-1 after 0-2 blocks, 0..29-byte files, messages cut by EOF, '
         'CRC-of-truncated-slice headers at EOF and at the end of a read buffer, wrappers with nested messages across boundaries, the #15 overlap '
-        'construct, stamps around 2^32 s and rounding, payloads shorter than the class layout, messages > MAX and > 65535 B, random mixes of all %d '
+        'construct, stamps around 2^32 s and rounding, for EVERY registered message type CRC-valid messages with empty / too short / garbage payloads (struct-based, construct-based and non-packable classes) in ordinary positions and across block boundaries, messages > MAX and > 65535 B, random mixes of all %d '
         'packable classes with junk, false syncs, corrupt CRCs, non-zero reserved bytes. SUPPORTING run (module constants patched to READ=64, MAX=48 '
         'in the harness process; workers are forked so they inherit them — checked): one message of size 24/25/40/48 at every offset of files around '
         'every block and overlap boundary (%s), random multi-message files, the same overlap/nested/tail/truncation/boundary families. '
